@@ -320,8 +320,11 @@ def make_rabin_transducer(zk, yki, xkijr, aut):
     s = rf"({c}' = {c}) /\ ({w}' = {none})"
     count = aut.add_expr(s)
     rho_1 = aut.false
-    basin = zk[0]
-    for z in zk[1:]:
+    # start from the empty basin, so that states from where
+    # the environment is forced to violate its action
+    # (those in `cox(FALSE)`) also have a step
+    basin = aut.false
+    for z in zk:
         zstar = _controllable_action(basin, aut)
         rim = z & ~ basin
         u = rim & zstar
